@@ -215,3 +215,12 @@ Proof.
     rewrite Hc. reflexivity.
   - rewrite trim_suffix_slash_clean by (rewrite E; discriminate). exact Ht.
 Qed.
+
+(* Symlink: both names handed to the source are confined *)
+Theorem bp_symlink_confined base o n a b :
+  bp_symlink base o n = Some (a, b) -> below base a /\ below base b.
+Proof.
+  unfold bp_symlink. destruct (real_path base o) as [x|] eqn:H1; [|discriminate].
+  destruct (real_path base n) as [y|] eqn:H2; [|discriminate]. intros H; inversion H; subst.
+  split; [exact (real_path_confined_gen _ _ _ H1) | exact (real_path_confined_gen _ _ _ H2)].
+Qed.
